@@ -62,7 +62,7 @@ def _targets():
     return T
 
 
-GEN_CONT = ("chain", "indep", "vecsite", "expo", "user", "kw", "bounded")
+GEN_CONT = ("chain", "indep", "vecsite", "expo", "user", "kw")
 GEN_DISC = ("disc", "fanin")
 _GT = {}
 
@@ -72,7 +72,10 @@ def _generated_targets():
     leaf address and every top-level address as the selection, nothing observed.  Continuous bodies under
     every wrapper (mh, mala, hmc); discrete bodies under call / vmap / repeat / scan (mh, whole transition
     matrix).  Names start with "g:"."""
-    if _GT:
+    if _GT or os.environ.get("VERIF_C09_GENERATED") != "1":
+        # Opt-in only: a spot run showed false alarms of this check on generated targets that contain a
+        # uniform *site* (body `bounded`: the site's draws are mistaken for the accept/reject uniform), and a
+        # full sweep was never completed (DESIGN 10.5) - unvalidated targets are not part of a registered command.
         return _GT
     from mc import generated as G
     from mc import ref as R
